@@ -104,7 +104,7 @@ def _layout(sc):
         phypos[ix] = numpy.cumsum([R.randint(1, 50) for _ in ix])
         genpos[ix] = numpy.cumsum([R.choice([0.0, 0.01, 0.05, 0.1, 0.3, 0.7, R.random()]) if k else 0.0 for k, _ in enumerate(ix)])
     if sc["xosrc"] == "arbitrary":
-        xo = numpy.array([R.choice([0.0, 0.0, 0.5, 0.1, 0.25, 0.3, 0.01, 0.499, R.random() / 2]) for _ in range(m)])
+        xo = numpy.array([R.choice([0.0, 0.0, 0.5, 0.1, 0.25, 0.3, 0.01, 0.499, R.random() / 2, 0.65, 0.8, 1.0, R.random()]) for _ in range(m)])
         for c in numpy.unique(chrgrp):
             xo[numpy.flatnonzero(chrgrp == c)[0]] = 0.5
     else:
